@@ -73,6 +73,14 @@ func filterAccountAddress(address, key string) string {
 // than selected by it.
 const metadataOrEmpty = `coalesce(accounts_metadata.metadata, '{}'::jsonb) as metadata`
 
+// isNotNullAnd guards a test on a nullable column so that it is false, not NULL, where
+// the column holds no value: under a `$not` a NULL stays NULL and the row would be
+// dropped from the result rather than selected by it (see metadataOrEmpty). The test
+// itself is left as is so that it can still be served by an index on the column.
+func isNotNullAnd(column, test string) string {
+	return "(" + column + " is not null and " + test + ")"
+}
+
 // filterMetadataIn resolves `$in` on one metadata key: the key is present and its
 // value is one of the listed strings. A single containment test cannot express it (a
 // string value never contains an array), so it is the disjunction of the tests `$match`
